@@ -77,11 +77,11 @@ using Vec = cntgs::BasicContiguousVector<cntgs::Options<cntgs::Allocator<ArenaAl
 struct TFixed
 {
     using V = Vec<cntgs::FixedSize<std::uint16_t>, std::uint32_t>;
-    static void build(void* where, int n)
+    static void build(void* where, int n, int bump = 0)
     {
         auto* v = new (where) V(static_cast<std::size_t>(n + 1), {3});
         for (int i = 0; i < n; ++i)
-            v->emplace_back(std::array<std::uint16_t, 3>{1, 2, 3}, static_cast<std::uint32_t>(10 + i));
+            v->emplace_back(std::array<std::uint16_t, 3>{1, 2, 3}, static_cast<std::uint32_t>(10 + i + (i == n - 1 ? bump : 0)));
     }
     template <class R>
     static int key(const R& r)
@@ -92,12 +92,12 @@ struct TFixed
 struct TVarying
 {
     using V = Vec<std::uint32_t, cntgs::VaryingSize<std::uint16_t>, std::uint8_t>;
-    static void build(void* where, int n)
+    static void build(void* where, int n, int bump = 0)
     {
         auto* v = new (where) V(static_cast<std::size_t>(n + 1), 64);
         for (int i = 0; i < n; ++i)
             v->emplace_back(static_cast<std::uint32_t>(i % 3), std::vector<std::uint16_t>(static_cast<std::size_t>(i % 3), 7),
-                            static_cast<std::uint8_t>(10 + i));
+                            static_cast<std::uint8_t>(10 + i + (i == n - 1 ? bump : 0)));
     }
     template <class R>
     static int key(const R& r)
@@ -109,12 +109,12 @@ struct TString
 {
     using V = Vec<std::uint32_t, cntgs::VaryingSize<std::string>, std::string>;
     static std::string s(int i) { return "a string long enough to live on the heap #" + std::to_string(i); }
-    static void build(void* where, int n)
+    static void build(void* where, int n, int bump = 0)
     {
         auto* v = new (where) V(static_cast<std::size_t>(n + 1), 8 * sizeof(std::string));
         for (int i = 0; i < n; ++i)
             v->emplace_back(static_cast<std::uint32_t>(i % 2), std::vector<std::string>(static_cast<std::size_t>(i % 2), s(i)),
-                            s(10 + i));
+                            s(10 + i + (i == n - 1 ? bump : 0)));
     }
     template <class R>
     static int key(const R& r)
@@ -133,6 +133,7 @@ struct Shared
     using V = typename T::V;
     using E = typename V::value_type;
     const V* vec = nullptr;
+    const V* other = nullptr;   // a second shared const vector: same size, differs from *vec in its LAST element only
     const E* elem = nullptr;
 
     void setup()
@@ -144,6 +145,10 @@ struct Shared
         void* ewhere = g_shared + (g_shared_bump + 63) / 64 * 64;
         g_shared_bump = (g_shared_bump + 63) / 64 * 64 + (sizeof(E) + 63) / 64 * 64;
         elem = new (ewhere) E((*vec)[0]);
+        void* owhere = g_shared + (g_shared_bump + 63) / 64 * 64;
+        g_shared_bump = (g_shared_bump + 63) / 64 * 64 + (sizeof(V) + 63) / 64 * 64;
+        T::build(owhere, NELEM, 1);
+        other = static_cast<const V*>(owhere);
         g_setup.store(0, std::memory_order_relaxed);
     }
 
@@ -179,8 +184,13 @@ struct Shared
             for (auto it = v.begin(); it != v.end(); ++it) s += T::key(*it);
             return s;
         }
-        if (op == "equal") return (v == v && !(v != v) && *elem == v[0] && v.front() == v[0]) ? 1 : 0;
-        if (op == "less") return (v < v || *elem < v[0] || v[0] < *elem) ? 1 : 0;
+        // comparisons also against the OTHER shared vector (equal size, first difference at the last element): the
+        // element-wise paths run to the end, both operands are shared and const
+        const V& w = *other;
+        if (op == "equal")
+            return (v == v && !(v != v) && *elem == v[0] && v.front() == v[0] && !(v == w) && w != v && w == w) ? 1 : 0;
+        if (op == "less")
+            return (v < v || *elem < v[0] || v[0] < *elem || (v < w) == (w <= v) || (w < v) == (v <= w)) ? 1 : 0;
         if (op == "copy")
         {
             V c(v);  // thread-local copy: distinct vectors never interfere, even when copied from one another
